@@ -20,39 +20,53 @@ VARIABLE k
 Report(ok, e, clause, detail) == IF ok THEN TRUE ELSE PrintT(<<"FAIL", e.id, clause, detail>>)
 All(S, P(_)) == \A x \in S : P(x)
 
-SameResult(A, B) == A.out = B.out /\ (A.out = "ok" => (A.start = B.start /\ A.end = B.end /\ A.rows = B.rows))
+(* B is a repeated result: its ledger is omitted (sameRows) when the harness found it identical to A's *)
+SameResult(A, B) == A.out = B.out /\ (A.out = "ok" => (A.start = B.start /\ A.end = B.end /\ (B.sameRows \/ A.rows = B.rows)))
+WithRows(A, B) == IF B.sameRows THEN [B EXCEPT !.rows = A.rows] ELSE B
 
 (* the domain restrictions of the properties *)
 SchedLeaf(I, t)    == IsLeaf(I, t) /\ ~IsMs(I, t)
 FreeStart(I, t)    == SchedLeaf(I, t) /\ ~StartFixed(I, t)
 Working(I, t)      == SchedLeaf(I, t) /\ ~Completed(I, t)
 
-JudgeOk(e) ==
-    LET I == e.I  R == e.R  fwd == I.dir = "fwd" IN
-    /\ Report(\A t \in Tasks(I) : R.start[t] # Missing /\ R.end[t] # Missing, e, "C06.dated", 0)
+(* backward inputs with user-fixed dates are outside C09's and C04's stated domain; C03 C06 C07 still apply *)
+BwdFixed(I) == I.dir = "bwd" /\ \E t \in Tasks(I) : StartFixed(I, t) \/ EndFixed(I, t)
+
+(* the clauses about ONE result R of input I (the first call and every repeated call are judged alike) *)
+ResultClauses(e, I, R, tag) ==
+    LET fwd == I.dir = "fwd"  free == ~BwdFixed(I) IN
+    /\ Report(\A t \in Tasks(I) : R.start[t] # Missing /\ R.end[t] # Missing, e, "C06.dated", tag)
+    /\ Report(~R.overflow, e, "C03.row", <<"ledger longer than any input needs", tag>>)
+    /\ \A t \in Tasks(I) : Report(C07_Order(I, R, t), e, "C07.order", <<t, tag>>)
     /\ (\A t \in Tasks(I) : R.start[t] # Missing /\ R.end[t] # Missing) =>
        /\ \A t \in Tasks(I) :
-            /\ (fwd /\ FreeStart(I, t)) => Report(C02_NotBefore(I, R, t), e, "C02.notbefore", t)
+            /\ (fwd /\ FreeStart(I, t)) => Report(C02_NotBefore(I, R, t), e, "C02.notbefore", <<t, tag>>)
             /\ (fwd /\ IsLeaf(I, t) /\ IsMs(I, t) /\ ~StartFixed(I, t) /\ ~EndFixed(I, t))
-                  => Report(C02_Milestone(I, R, t), e, "C02.milestone", t)
-            /\ Working(I, t) => /\ Report(C04_Work(I, R, t), e, "C04.work", t)
-                                /\ Report(C04_Dates(I, R, t), e, "C04.dates", t)
-            /\ ~Working(I, t) => Report(C04_NoRows(I, R, t), e, "C04.norows", t)
-            /\ (fwd /\ SchedLeaf(I, t)) => Report(C04_FixedKept(I, R, t), e, "C04.fixed", t)
-            /\ Report(C07_Order(I, R, t), e, "C07.order", t)
-            /\ ~IsLeaf(I, t) => Report(C07_RollUp(I, R, t), e, "C07.rollup", t)
-            /\ (fwd /\ I.balance /\ FreeStart(I, t)) => Report(C08_Tight(I, R, t), e, "C08.tight", t)
+                  => Report(C02_Milestone(I, R, t), e, "C02.milestone", <<t, tag>>)
+            /\ (Working(I, t) /\ free) => /\ Report(C04_Work(I, R, t), e, "C04.work", <<t, tag>>)
+                                           /\ Report(C04_Dates(I, R, t), e, "C04.dates", <<t, tag>>)
+            /\ ~Working(I, t) => Report(C04_NoRows(I, R, t), e, "C04.norows", <<t, tag>>)
+            /\ (fwd /\ SchedLeaf(I, t)) => Report(C04_FixedKept(I, R, t), e, "C04.fixed", <<t, tag>>)
+            /\ ~IsLeaf(I, t) => Report(C07_RollUp(I, R, t), e, "C07.rollup", <<t, tag>>)
+            /\ (fwd /\ I.balance /\ FreeStart(I, t)) => Report(C08_Tight(I, R, t), e, "C08.tight", <<t, tag>>)
             /\ (fwd /\ I.balance /\ FreeStart(I, t) /\ ~EndFixed(I, t) /\ I.now <= I.pstart /\ HasRows(R, t))
-                  => Report(C08_Encoding(I, R, t), e, "C08.encoding", t)
-            /\ ~fwd => Report(C09_Deadline(I, R, t), e, "C09.deadline", t)
-            /\ ~fwd => \A p \in PreOf(I, t) \cap Tasks(I) : Report(C09_Dependency(I, R, p, t), e, "C09.dependency", t)
-            /\ (~fwd /\ I.balance /\ IsLeaf(I, t)) => Report(C09_LatePacked(I, R, t), e, "C09.latepacked", t)
-            /\ (~fwd /\ I.balance /\ SchedLeaf(I, t) /\ HasRows(R, t))
-                  => Report(C09_Encoding(I, R, t), e, "C09.encoding", t)
-       /\ Report(C07_Wbs(I, R), e, "C07.wbs", 0)
-       /\ (fwd /\ I.balance) => Report(C08_WbsOrder(I, R), e, "C08.wbsorder", 0)
-       /\ \A j \in RowIdx(R) : Report(C03_Row(I, R, j), e, "C03.row", j)
-       /\ Report(C03_Capacity(I, R), e, "C03.capacity", 0)
+                  => Report(C08_Encoding(I, R, t), e, "C08.encoding", <<t, tag>>)
+            /\ (~fwd /\ free) => Report(C09_Deadline(I, R, t), e, "C09.deadline", <<t, tag>>)
+            /\ (~fwd /\ free) => \A p \in PreOf(I, t) \cap Tasks(I) :
+                                      Report(C09_Dependency(I, R, p, t), e, "C09.dependency", <<t, tag>>)
+            /\ (~fwd /\ free /\ I.balance /\ IsLeaf(I, t)) => Report(C09_LatePacked(I, R, t), e, "C09.latepacked", <<t, tag>>)
+            /\ (~fwd /\ free /\ I.balance /\ SchedLeaf(I, t) /\ HasRows(R, t))
+                  => Report(C09_Encoding(I, R, t), e, "C09.encoding", <<t, tag>>)
+       /\ Report(C07_Wbs(I, R), e, "C07.wbs", tag)
+       /\ (fwd /\ I.balance) => Report(C08_WbsOrder(I, R), e, "C08.wbsorder", tag)
+       /\ \A j \in RowIdx(R) : Report(C03_Row(I, R, j), e, "C03.row", <<j, tag>>)
+       /\ Report(C03_Capacity(I, R), e, "C03.capacity", tag)
+
+JudgeOk(e) ==
+    LET I == e.I  R == e.R IN
+    /\ ResultClauses(e, I, R, 0)
+    /\ \A i \in DOMAIN e.rep : e.rep[i].out = "ok" => ResultClauses(e, I, WithRows(R, e.rep[i]), i)
+    /\ (\A t \in Tasks(I) : R.start[t] # Missing /\ R.end[t] # Missing) =>
        /\ \A i \in DOMAIN e.obs.reserved :
              LET o == e.obs.reserved[i] IN Report(QEq(o.u, Booked(R, o.r, o.d)), e, "C03.reserved", i)
        /\ \A i \in DOMAIN e.obs.filt :
